@@ -27,7 +27,7 @@ CORPUS = os.path.join(VERIF, "corpus")
 NSHARDS = int(os.environ.get("VERIF_SHARDS", "16"))
 # per-case watchdog (seconds): the slowest legitimate cases (> 2^24 keys under ASan, 5000-operation histories with full
 # observation) take well under a minute on an idle machine; expiry is inconclusive until the case, re-run alone, expires again
-CASE_TIMEOUT = dict(quick=int(os.environ.get("VERIF_CASE_TIMEOUT", "300")), thorough=int(os.environ.get("VERIF_CASE_TIMEOUT", "900")))
+CASE_TIMEOUT = dict(quick=int(os.environ.get("VERIF_CASE_TIMEOUT", "150")), thorough=int(os.environ.get("VERIF_CASE_TIMEOUT", "600")))
 
 
 def log(*a):
